@@ -290,6 +290,7 @@ func (in *Interp) ensureInit(p *ssa.Package) {
 			return
 		}
 	}
+	p.Build() // packages other than the harness's are built lazily; without this the first path would skip their init
 	initFn := p.Func("init")
 	if initFn == nil || initFn.Blocks == nil {
 		return
